@@ -152,6 +152,8 @@ static void runTarget(int target, const Bytes &input, Case &c, bool debugLog) {
     {
         Ctx ctx; if (!ctx.ctx) { c.skip("ctx"); return; }
         KSI_CTX_setLoggerCallback(ctx, logCb, nullptr); KSI_CTX_setLogLevel(ctx, debugLog ? KSI_LOG_DEBUG : KSI_LOG_NONE);
+        // a quarter of the inputs (chosen by a hash of the input, so replay files keep their meaning) run with a tiny or disabled data-hash recycle pool
+        { uint64_t hk = fnv64(input.data(), input.size()); if (hk % 4 == 0) { KSI_CTX_setOption(ctx, KSI_OPT_DATAHASH_CACHE_SIZE, (void *)(size_t)((hk >> 8) % 3)); c.cls("option:small-datahash-cache"); } }
         switch (target) {
         case T_SIG: tSignature(ctx, in, c); break;
         case T_AGGR1: tAggrPdu(ctx, in, c, 1); break; case T_AGGR2: tAggrPdu(ctx, in, c, 2); break;
